@@ -423,13 +423,14 @@ def run_c07(tier, seed):
     def witness_steps(tag):
         k = b"wit" + tag
         return [(1, "f" + L.hx(RB("SET", [k, b"v" + tag]))), (1, "f" + L.hx(RB("GET", [k]))), (1, "f" + L.hx(RB("PING", [])))], [b"+OK\r\n", b"$%d\r\nv%s\r\n" % (len(tag) + 1, tag), b"+PONG\r\n"]
-    def add(handler, off_steps, desc, end="e"):
+    def add(handler, off_steps, desc, end="e", end_after_witness=False, extra_tbl=None):
         w1, e1 = witness_steps(b"1")
         w2, e2 = witness_steps(b"2")
-        steps = w1 + off_steps + [(0, end)] + w2 + [(1, "e")]
+        steps = w1 + off_steps + ([(0, end)] + w2 if not end_after_witness else w2 + [(0, end)]) + [(1, "e")]
         tbl = None
         if handler != "example":
-            tbl = {"Set:" + L.hx(b"wit1"): "ms(4f4b)", "Set:" + L.hx(b"wit2"): "ms(4f4b)", "Get:" + L.hx(b"wit1"): "mb(" + L.hx(b"v1") + ")", "Get:" + L.hx(b"wit2"): "mb(" + L.hx(b"v2") + ")"}
+            tbl = dict(extra_tbl or {})
+            tbl.update({"Set:" + L.hx(b"wit1"): "ms(4f4b)", "Set:" + L.hx(b"wit2"): "ms(4f4b)", "Get:" + L.hx(b"wit1"): "mb(" + L.hx(b"v1") + ")", "Get:" + L.hx(b"wit2"): "mb(" + L.hx(b"v2") + ")"})
         # float tokens in exponent notation are outside the model's lexical class (strconv.ParseFloat is not modelled): monitors only
         nocorr = any(t in L.unhx(op[1:]) for (_, op) in off_steps if op[0] in "fg" for t in (b"1e308", b"1e400"))
         cases.append(dict(line=L.mkcase(steps, conns=2, tbl=tbl, default=rng.choice(HRES_NOERR) if handler != "example" else None, handler=handler, trace=True),
@@ -462,6 +463,15 @@ def run_c07(tier, seed):
                 data = data[:rng.randrange(1, len(data))]
             add(handler, [(0, "g" + L.hx(data[:len(data) // 2])), (0, "f" + L.hx(data[len(data) // 2:]))] if len(data) > 3 else [(0, "f" + L.hx(data))],
                 "random pipeline %r" % data[:80], end=rng.choice(["e", "r", "x"]))
+    # (c) a client that sends requests with large replies and never reads them: its own replies may wait, nobody else's may
+    bigv = bytes((i * 11 + 7) % 251 for i in range(4000))
+    for handler in ("example", "double"):
+        for cap in (0, 16, 3000):
+            for ngets in (1, 3):
+                off = [(0, "f" + L.hx(RB("SET", [b"bigk", bigv]))), (0, "s%d" % cap), (0, "g" + L.hx(RB("GET", [b"bigk"]) * ngets + RB("PING", [])))]
+                add(handler, off, "offender stores 4000 bytes, stops reading (%d bytes of buffer left) and pipelines %d x GET + PING; the witness works meanwhile" % (cap, ngets),
+                    end=rng.choice(["x", "r"]), end_after_witness=True,
+                    extra_tbl={"Set:" + L.hx(b"bigk"): "ms(4f4b)", "Get:" + L.hx(b"bigk"): "mb(" + L.hx(bigv) + ")"})
     lines = [c["line"] for c in cases]
     good = run_cases(chk, cases, shards=14)
     validated, distinct, by = 0, set(), {"example": 0, "double": 0}
